@@ -129,6 +129,10 @@ pub struct RunSpec {
     /// this phase's process is killed (as by SIGKILL: no destructors, no flushes) when the run's step counter
     /// reaches this value (0 = never); the files it wrote so far are what the next phase finds
     pub kill_step: u64,
+    /// fault kind F11: plan of injected I/O errors for this process incarnation (0 = none), see disk.rs
+    pub io_fault: u64,
+    /// the phase ends in a power loss chosen by this seed (0 = none): unsynced file tails may be gone, see disk.rs
+    pub power: u64,
     /// the next process incarnation of a chained run: fresh memory, same private disk
     pub next: Option<Box<RunSpec>>,
 }
@@ -1258,7 +1262,7 @@ impl Shared {
             "sens": st.sens_calls,
             "pf": self.spec.policy.family(),
             "pn": self.spec.policy.name(),
-            "nt": self.n, "hl": st.helpers, "jn": st.joins, "fo": crate::disk::FILE_OPS.load(Ordering::Relaxed), "fp": st.file_points, "fh": st.file_holds, "tmo": st.timeouts, "slp": st.sleeps, "yld": st.yields,
+            "nt": self.n, "hl": st.helpers, "jn": st.joins, "fo": crate::disk::FILE_OPS.load(Ordering::Relaxed), "iof": crate::disk::io_injected(), "iop": (self.spec.io_fault != 0) as u64, "fp": st.file_points, "fh": st.file_holds, "tmo": st.timeouts, "slp": st.sleeps, "yld": st.yields,
             "mi": st.max_inflight,
         });
         if let Some(x) = violation {
@@ -1378,6 +1382,7 @@ fn spawn_client(sh: &'static Shared, me: usize, start_call: usize) -> std::threa
 pub fn run_child(pool: &Pool, spec: &RunSpec) -> ! {
     let t_start = std::time::Instant::now();
     silence_stderr();
+    crate::disk::IO_FAULT.store(spec.io_fault, Ordering::Relaxed);
     // Safety of the 'static casts: the process ends inside this function.
     let pool: &'static Pool = unsafe { &*(pool as *const Pool) };
     let spec: &'static RunSpec = unsafe { &*(spec as *const RunSpec) };
